@@ -258,6 +258,15 @@ def sext16 (v : Nat) : Int := if v % 65536 < 32768 then (v % 65536 : Nat) else (
 def patchApplies (opcode typeByte : Nat) : Bool :=
   sext8 opcode == (Gen.C17.fSwitch : Int) && (sext8 typeByte) / 16 != 15
 
+/-- a 16-bit patch entry as `patch_out` / `patch_in` see it: `i = (<cast>) patches[--len]` with `short *patches` and
+    `int i` — through `(unsigned short)` the program offset itself, without it sign-extended -/
+def readPatchOffset (cast : String) (raw : Nat) : Int :=
+  if cast = "unsigned short" then ((raw % 65536 : Nat) : Int) else sext16 raw
+
+/-- a table bound read with COPY_SHORT into a variable of the given C type -/
+def readTableBound (ty : String) (raw : Nat) : Int :=
+  if ty = "unsigned short" then ((raw % 65536 : Nat) : Int) else sext16 raw
+
 /-- `store_prog_string (s)` for a string that is in the table: its index -/
 def indexOfPtr (strings : List Int) (p : Int) : Option Nat :=
   let i := strings.findIdx (· == p)
